@@ -305,7 +305,30 @@ int owner_of(pthread_mutex_t *m)
 }
 }
 
-extern "C" void __tsan_on_report(void *) { ++g_tsan_reports; }
+extern "C" int __tsan_get_report_data(void *report, char const **description, int *count, int *stack_count, int *mop_count, int *loc_count, int *mutex_count, int *thread_count, int *unique_tid_count, void **sleep_trace, unsigned long trace_size);
+
+namespace
+{
+char g_first_report[64] = "";
+}
+
+extern "C" void __tsan_on_report(void *rep)
+{
+  if (g_tsan_reports == 0 || g_first_report[0] == 0)
+  {
+    char const *desc = nullptr;
+    int a = 0, b = 0, c = 0, d = 0, e = 0, f = 0, h = 0;
+    void *trace[1] = {nullptr};
+    if (__tsan_get_report_data(rep, &desc, &a, &b, &c, &d, &e, &f, &h, trace, 1) != 0 && desc != nullptr)
+    {
+      std::size_t k = 0;
+      for (; desc[k] != 0 && k + 1 < sizeof g_first_report; ++k)
+        g_first_report[k] = desc[k] == ' ' ? '-' : desc[k];
+      g_first_report[k] = 0;
+    }
+  }
+  ++g_tsan_reports;
+}
 
 namespace sim::sched
 {
@@ -324,6 +347,11 @@ void clear_history()
 }
 int current_fiber() { return g.active ? g.cur : -1; }
 unsigned tsan_report_count() { return g_tsan_reports; }
+char const *tsan_first_report_kind()
+{
+  return g_first_report[0] != 0 ? g_first_report : "report";
+}
+void tsan_reset_report_kind() { g_first_report[0] = 0; }
 void yield_here(unsigned kind, void const *obj) { sched_point(K_OP + kind, obj); }
 void arm_alloc_fault(int fiber, long k)
 {
@@ -357,6 +385,7 @@ Result run(std::vector<std::function<void()>> const &bodies, Config const &cfg)
   g_history.reserve(8192);
   g.main_tsan = __tsan_get_current_fiber();
   unsigned const before_reports = g_tsan_reports;
+  g_first_report[0] = 0;
   // PCT: random distinct priorities, d-1 change points among the first steps
   g.lowest_priority = 0;
   g.change_points.clear();
